@@ -148,16 +148,22 @@ Fixpoint check_of_type (H : hashfun) (hs : list str) (outs : list out) (cs : lis
       else check_of_type H hs outs r (valid_line a hx :: acc)
   end.
 
-(* checkRuleHashes *)
-Definition check_rule_hashes (H : hashfun) (cfg : config) (outs : list out) (declared : list str) : verdict :=
+(* checkRuleHashes(state, target, hash): `hash` is what state.TargetHasher.OutputHash returned.  That
+   function memoises per target for the life of the process, so `hash` is NOT always the hash of the
+   outputs that are checked now (see build_genrule); the per-checker hashes are always recomputed. *)
+Definition check_rule_hashes_with (H : hashfun) (cfg : config) (primary : str) (outs : list out) (declared : list str) : verdict :=
   match declared with
   | [] => Accept
   | _ =>
       let hs := unprefixed declared in
-      let hx := hex (primary_hash H (hashfn cfg) outs) in
+      let hx := hex primary in
       if existsb (fun h => str_eqb h hx) hs then Accept
       else check_of_type H hs outs (checkers cfg) []
   end.
+
+(* calculateAndCheckRuleHash on a target whose output hash has not been memoised yet *)
+Definition check_rule_hashes (H : hashfun) (cfg : config) (outs : list out) (declared : list str) : verdict :=
+  check_rule_hashes_with H cfg (primary_hash H (hashfn cfg) outs) outs declared.
 
 (* ------------------------------------------------------------------------------------------ *)
 (* What a verification leaves behind: one target through a history of builds.
@@ -234,32 +240,38 @@ Fixpoint move_outputs (H : hashfun) (fn : algo) (old : list file) (new : list ou
       end
   end.
 
-Record result := { ok : bool; ran : bool; restored : bool }.
+(* seen: the outputs the last hash verification of this step looked at ([] when none ran) *)
+Record result := { ok : bool; ran : bool; restored : bool; seen : list out }.
 
 (* the build proper: run the command, StoreTargetMetadata, moveOutputs, calculateAndCheckRuleHash;
-   success: writeRuleHash on every output, then storeInCache;  failure: Build() calls RemoveOutputs *)
-Definition build_fresh (H : hashfun) (cfg : config) (st : state) (d : def) : state * result :=
+   success: writeRuleHash on every output, then storeInCache;  failure: Build() calls RemoveOutputs.
+   memo: the output hash memoised earlier in this process by a rejected cache restore, if any. *)
+Definition build_fresh (H : hashfun) (cfg : config) (memo : option str) (st : state) (d : def) : state * result :=
   let placed := map fst (move_outputs H (hashfn cfg) (disk st) (d_produce d)) in
-  if accepted (check_rule_hashes H cfg (outs_of placed) (d_declared d)) then
+  let primary := match memo with Some m => m | None => primary_hash H (hashfn cfg) (outs_of placed) end in
+  if accepted (check_rule_hashes_with H cfg primary (outs_of placed) (d_declared d)) then
     let fs := stamp (key_of d) placed in
     ({| disk := fs; meta := true; cache := cache_store (key_of d) fs (cache st) |},
-     {| ok := true; ran := true; restored := false |})
+     {| ok := true; ran := true; restored := false; seen := outs_of placed |})
   else
-    ({| disk := []; meta := true; cache := cache st |}, {| ok := false; ran := true; restored := false |}).
+    ({| disk := []; meta := true; cache := cache st |},
+     {| ok := false; ran := true; restored := false; seen := outs_of placed |}).
 
 Definition build_genrule (H : hashfun) (cfg : config) (st : state) (d : def) : state * result :=
-  if negb (needs_building st d) then (st, {| ok := true; ran := false; restored := false |})
+  if negb (needs_building st d) then (st, {| ok := true; ran := false; restored := false; seen := [] |})
   else
     match cache_lookup (key_of d) (cache st) with
     | Some cfs =>
         (* retrieveArtifacts: the entry is linked into plz-out, then calculateAndCheckRuleHash *)
         if accepted (check_rule_hashes H cfg (outs_of cfs) (d_declared d)) then
           ({| disk := stamp (key_of d) cfs; meta := true; cache := cache st |},
-           {| ok := true; ran := false; restored := true |})
+           {| ok := true; ran := false; restored := true; seen := outs_of cfs |})
         else
-          (* RemoveOutputs(target); return false -> falls through to the real build *)
-          build_fresh H cfg {| disk := []; meta := true; cache := cache st |} d
-    | None => build_fresh H cfg st d
+          (* RemoveOutputs(target); return false -> falls through to the real build, in which
+             state.TargetHasher.OutputHash still returns the hash of the rejected artifacts *)
+          build_fresh H cfg (Some (primary_hash H (hashfn cfg) (outs_of cfs)))
+                      {| disk := []; meta := true; cache := cache st |} d
+    | None => build_fresh H cfg None st d
     end.
 
 (* filegroups: no record, no cache; the hash check runs only when some file was (re)linked *)
@@ -268,11 +280,13 @@ Definition build_filegroup (H : hashfun) (cfg : config) (st : state) (d : def) :
   let placed := map fst moved in
   if existsb snd moved then
     if accepted (check_rule_hashes H cfg (outs_of placed) (d_declared d)) then
-      ({| disk := placed; meta := meta st; cache := cache st |}, {| ok := true; ran := false; restored := false |})
+      ({| disk := placed; meta := meta st; cache := cache st |},
+       {| ok := true; ran := false; restored := false; seen := outs_of placed |})
     else
-      ({| disk := []; meta := meta st; cache := cache st |}, {| ok := false; ran := false; restored := false |})
+      ({| disk := []; meta := meta st; cache := cache st |},
+       {| ok := false; ran := false; restored := false; seen := outs_of placed |})
   else
-    ({| disk := placed; meta := meta st; cache := cache st |}, {| ok := true; ran := false; restored := false |}).
+    ({| disk := placed; meta := meta st; cache := cache st |}, {| ok := true; ran := false; restored := false; seen := [] |}).
 
 Definition build_one (H : hashfun) (cfg : config) (k : kind) (st : state) (d : def) : state * result :=
   match k with
@@ -301,7 +315,7 @@ Fixpoint run (H : hashfun) (cfg : config) (k : kind) (st : state) (steps : list 
 
 (* ------------------------------------------------------------------------------------------ *)
 (* Known defect classes of histories (executable; see Props/C35.v). *)
-Inductive defect := HashListResplit | FilegroupUncheckedInPlace.
+Inductive defect := HashListResplit | FilegroupUncheckedInPlace | StaleHashAfterRejectedRestore.
 
 Fixpoint defs_of (steps : list step) : list def :=
   match steps with
@@ -323,9 +337,15 @@ Definition fg_unchecked (H : hashfun) (cfg : config) (e : event) : bool :=
   | _ => negb (existsb snd (move_outputs H (hashfn cfg) (disk (e_before e)) (d_produce (e_def e))))
   end.
 
+(* a build that followed a rejected cache restore failed although the rebuilt outputs match *)
+Definition stale_reject (H : hashfun) (cfg : config) (e : event) : bool :=
+  negb (ok (e_res e)) && accepted (check_rule_hashes H cfg (seen (e_res e)) (d_declared (e_def e))).
+
 Definition defect_class (H : hashfun) (cfg : config) (k : kind) (steps : list step) : option defect :=
   match k with
-  | Genrule => if resplit (defs_of steps) then Some HashListResplit else None
+  | Genrule => if resplit (defs_of steps) then Some HashListResplit
+               else if existsb (stale_reject H cfg) (run H cfg k empty_state steps) then Some StaleHashAfterRejectedRestore
+               else None
   | Filegroup => if existsb (fg_unchecked H cfg) (run H cfg k empty_state steps) then Some FilegroupUncheckedInPlace else None
   end.
 
